@@ -118,7 +118,8 @@ func runC12(c *core.Ctx) {
 		if len(bcs) == 0 {
 			c.Fail("C12.R2", key+"/delegate", fn.Pos(), "no backend call: allowed calls would not behave as on the wrapped registry")
 		}
-		delegRets := map[*ssa.Return]bool{}
+		vrets := virtualReturns(fn)
+		delegV := map[int]bool{}
 		for _, bc := range bcs {
 			cc := bc.Call.Common()
 			// receiver of the backend call: a field of the wrapper
@@ -158,6 +159,53 @@ func runC12(c *core.Ctx) {
 				}
 				return false
 			}
+			// path-based fallback: the check's result may travel through a reassigned
+			// variable (`err := check(a); if err == nil { err = check(b) }; if err != nil
+			// { return }`), which dominance over SSA values cannot see
+			guardedOnPaths := func(argOK func(ssa.Value) bool, kind int64) bool {
+				if bc.In != fn {
+					return false
+				}
+				ff := facts.FlowFuncs{
+					Edge: func(b *ssa.BasicBlock, idx int, t facts.Tokens) bool {
+						for _, cd := range facts.EdgeConds(b, idx) {
+							x, isNil, ok := facts.NilCheck(cd)
+							if !ok {
+								continue
+							}
+							pv := facts.PathValue(x)
+							pc, ok := policyCall(pv, recvTerm, ak)
+							if !ok {
+								continue
+							}
+							// one SSA value has one outcome: a path that has seen it both nil and non-nil is infeasible
+							tm := facts.Term(pv) + "#" + pv.Name()
+							if (isNil && t["nonnil:"+tm]) || (!isNil && t["nil:"+tm]) {
+								return false
+							}
+							if isNil {
+								t["nil:"+tm] = true
+							} else {
+								t["nonnil:"+tm] = true
+							}
+							k, isC := facts.ConstInt(pc.Call.Args[1])
+							if isC && k == kind && argOK(pc.Call.Args[0]) {
+								if isNil {
+									t["passed"] = true
+								} else {
+									t["rejected"] = true
+								}
+							}
+						}
+						return true
+					},
+				}
+				flow := facts.PathFlow(fn, ff)
+				return facts.AllAt(ff, flow, bc.Call, func(t facts.Tokens) bool { return t["passed"] && !t["rejected"] })
+			}
+			guarded := func(argOK func(ssa.Value) bool, kind int64) bool {
+				return guardedBy(argOK, kind) || guardedOnPaths(argOK, kind)
+			}
 			if name == "Repositories" {
 				ok := guardedBy(func(v ssa.Value) bool { s, isS := facts.ConstString(v); return isS && s == "*" }, ak.List)
 				c.Check(ok, "C12.R3", key+"/guard/*", bc.Call.Pos(), `dominated by check("*", AccessList) == nil`, `backend Repositories is not dominated by check("*", AccessList) == nil`)
@@ -173,7 +221,7 @@ func runC12(c *core.Ctx) {
 				}
 				si := pi + 1 // SSA parameter index (receiver is param 0)
 				pname := fn.Params[si].Name()
-				ok := guardedBy(func(v ssa.Value) bool { return argIsParam(v, fn, si) }, kind)
+				ok := guarded(func(v ssa.Value) bool { return argIsParam(v, fn, si) }, kind)
 				c.Check(ok, "C12.R3", key+"/guard/"+pname, bc.Call.Pos(),
 					"dominated by check("+pname+", "+kindName[kind]+") == nil",
 					"backend call is NOT dominated by check("+pname+", "+kindName[kind]+") == nil: a rejected repository reaches the wrapped registry")
@@ -181,9 +229,9 @@ func runC12(c *core.Ctx) {
 			// results returned unchanged (non-iterator shape)
 			if call, isCall := bc.Call.(*ssa.Call); isCall && bc.In == fn {
 				found := false
-				for _, r := range returnsOf(fn) {
-					if resultsFromCall(r, call) {
-						delegRets[r] = true
+				for i, vr := range vrets {
+					if valsFromCall(vr.Vals, call) {
+						delegV[i] = true
 						found = true
 					}
 				}
@@ -192,29 +240,26 @@ func runC12(c *core.Ctx) {
 		}
 		// R3b: every other return carries a policy error on its non-nil branch
 		// (or, for Repositories, is the filtering iterator literal).
-		for _, r := range returnsOf(fn) {
-			if delegRets[r] {
+		for i, vr := range vrets {
+			if delegV[i] {
 				continue
 			}
-			if name == "Repositories" && len(r.Results) == 1 {
-				if _, isMC := facts.Resolve(r.Results[0]).(*ssa.MakeClosure); isMC {
+			r := vr.Ret
+			if name == "Repositories" && len(vr.Vals) == 1 {
+				if _, isMC := facts.Resolve(vr.Vals[0]).(*ssa.MakeClosure); isMC {
 					continue
 				}
 			}
 			ok := false
-			if n := len(r.Results); n > 0 {
-				ev := facts.Resolve(r.Results[n-1])
+			if n := len(vr.Vals); n > 0 {
+				ev := facts.Resolve(vr.Vals[n-1])
 				if call, isCall := ev.(*ssa.Call); isCall && n == 1 && len(call.Call.Args) == 1 && hasSuffix(facts.CalleeName(&call.Call), "ociregistry.ErrorSeq") {
 					ev = facts.Resolve(call.Call.Args[0])
 				}
-				if _, isPol := policyCall(ev, recvTerm, ak); isPol {
-					for _, cd := range facts.CondsAt(r.Block()) {
-						if x, isNil, okc := facts.NilCheck(cd); okc && !isNil && facts.Resolve(x) == ev {
-							ok = true
-						}
-					}
+				if _, isPol := policyCall(ev, recvTerm, ak); isPol && vr.nonNil(ev) {
+					ok = true
 				}
-				for _, v := range r.Results[:n-1] {
+				for _, v := range vr.Vals[:n-1] {
 					if !isZero(v) {
 						ok = false
 					}
@@ -255,7 +300,7 @@ func isYieldCall(ci ssa.CallInstruction) (*ssa.Parameter, bool) {
 
 func checkC12Listing(c *core.Ctx, fn *ssa.Function, recvTerm string, ak accessKinds) {
 	n := 0
-	for _, f := range facts.WithAnon(fn) {
+	for _, f := range withHelpers(fn) {
 		for _, ci := range facts.CallsIn(f) {
 			if _, ok := isYieldCall(ci); !ok {
 				continue
